@@ -245,13 +245,27 @@ def merged(path):
     return out
 
 
-def body_match(I, X, mi=0, order=0, strict=True, merge=True, n=3, method="GET", check_redirect=True, script="/", scheme="http", pct=False, qbind=False):
+def query_form(qform):
+    """the query arguments handed to the router (string, dict, multi-valued mapping) and the
+    query string every redirect must carry"""
+    if qform == "str":
+        return "q=1", "q=1"
+    if qform == "dict":
+        return {"q": "1", "id": "a b"}, "q=1&id=a+b"
+    from werkzeug.datastructures import ImmutableMultiDict
+
+    return ImmutableMultiDict([("q", "1"), ("id", "a b"), ("q", "2")]), "q=1&q=2&id=a+b"
+
+
+def body_match(I, X, mi=0, order=0, strict=True, merge=True, n=3, method="GET", check_redirect=True, script="/", scheme="http", pct=False, qbind=False, qform="str"):
     from werkzeug.exceptions import MethodNotAllowed, NotFound
     from werkzeug.routing import RequestRedirect
 
+    QA, QS = query_form(qform)
+
     m, refs = build_map(mi, order, strict, merge)
     # the query string is given to match(), or (qbind) once at bind time as bind_to_environ does
-    adapter = m.bind("example.org", script, url_scheme=scheme, query_args="q=1" if qbind else None)
+    adapter = m.bind("example.org", script, url_scheme=scheme, query_args=QA if qbind else None)
     tail = X.str("path", n, minlen=n, maxcp=0x7E)
     X.assume(pall_in(tail, [(0x21, 0x7E)]))
     # no query / fragment markers; a literal '%' (the server delivers decoded paths, so this is
@@ -276,7 +290,7 @@ def body_match(I, X, mi=0, order=0, strict=True, merge=True, n=3, method="GET", 
     try:
         mkw = {"path_info": path, "method": method, "return_rule": True}
         if not qbind:
-            mkw["query_args"] = "q=1"
+            mkw["query_args"] = QA
         rule, args = I.call(adapter.match, (), mkw)
         outcome = ("match", rule.endpoint, dict(I.dict_items(args)) if not isinstance(args, dict) or X.symbolic else dict(args))
     except RequestRedirect as e:
@@ -346,9 +360,9 @@ def body_match(I, X, mi=0, order=0, strict=True, merge=True, n=3, method="GET", 
         # C12: stays on the bound scheme/host/script root and keeps the query string
         root = f"{scheme}://example.org" + script.rstrip("/")
         prefix = root + "/"
-        ok = pand(pstartswith(url, prefix), pendswith(url, "?q=1"))
+        ok = pand(pstartswith(url, prefix), pendswith(url, "?" + QS))
         if bool(ok) and check_redirect:
-            target = url[len(root): plen(url) - len("?q=1")]
+            target = url[len(root): plen(url) - len("?" + QS)]
             # the target is the canonical form of the request: slash appended and/or slashes merged
             exp1 = pconcat(norm, "/")
             mp = merged(norm)
@@ -383,7 +397,7 @@ def body_match(I, X, mi=0, order=0, strict=True, merge=True, n=3, method="GET", 
                 try:
                     # the server delivers the percent-decoded path
                     rule2, args2 = I.call(adapter.match, (), {"path_info": punquote(cur), "method": method, "return_rule": True,
-                                                              "query_args": "q=1"})
+                                                              "query_args": QA})
                     got2 = dict(I.dict_items(args2))
                     for ep, a, is_alias in denotes:
                         if ep == rule2.endpoint and len(a) == len(got2) and all(k in got2 and (v is None or bool(peq(got2[k], v))) for k, v in a.items()):
@@ -395,10 +409,10 @@ def body_match(I, X, mi=0, order=0, strict=True, merge=True, n=3, method="GET", 
                     break
                 except RequestRedirect as e2:
                     u2 = e2.new_url
-                    if not bool(pand(pstartswith(u2, prefix), pendswith(u2, "?q=1"))) or any(bool(peq(u2, u)) for u in seen_urls):
+                    if not bool(pand(pstartswith(u2, prefix), pendswith(u2, "?" + QS))) or any(bool(peq(u2, u)) for u in seen_urls):
                         break
                     seen_urls.append(u2)
-                    cur = u2[len(root): plen(u2) - len("?q=1")]
+                    cur = u2[len(root): plen(u2) - len("?" + QS)]
                 except (NotFound, MethodNotAllowed):
                     break
             ok = pand(ok, same)
